@@ -332,6 +332,7 @@ def _is_valid(rep, M, C, CRCF, RO, DATA, END, file):
     fn = C.methods["is_valid"]
     at = f"{MOD}.DataReadout.is_valid"
     E = Engine(M, keep_props={"expected_checksum", "identification_line", "end_line"}, split_ifexp=True)
+    E.record_eval = True
     ps = E.run(fn)
     EXP = lambda g: isinstance(g, tuple) and g[0] == "prop" and g[1] == SELF and g[2] == "expected_checksum"
     CALC = F(CRCF)
@@ -374,7 +375,7 @@ def _is_valid(rep, M, C, CRCF, RO, DATA, END, file):
                 rep.violation("R3", at, "present-not-compared", "a path returns True with a checksum present but without the test `calculated == expected` on its true side", file, fn.node.lineno,
                               witness="; ".join(("" if pol else "not ") + show_sv(g)[:60] for g, pol, _ in p.guards))
             # identification must have been evaluated on the way (no exception)
-            if not any(e[0] == "write" and _mentions(e[3], lambda s: s[0] == "prop" and s[2] == "identification_line") for e in p.effects) and \
+            if not any(e[0] in ("write", "eval") and _mentions(e[3] if e[0] == "write" else e[1], lambda s: s[0] == "prop" and s[2] == "identification_line") for e in p.effects) and \
                     not any(_mentions(g, lambda s: s[0] == "prop" and s[2] == "identification_line") for g, _, _ in p.guards):
                 bad += 1
                 rep.violation("R5", at, "ident-not-evaluated", "a path returns True without constructing the identification line", file, fn.node.lineno)
